@@ -729,6 +729,8 @@ def names_of(case):
             # predict_probability builds its column labels as name + "_" + str(state): string names only
             pool = [y for y in pool if isinstance(y, str)]
         nn = pool[:n]
+    elif case["nstyle"] == "str" and n > 13:
+        nn = ["N%d" % i for i in rng.sample(range(3 * n), n)]
     elif case["nstyle"] == "bigint":
         nn = rng.sample(range(257, 257 + 4 * n + 8), n)
     else:
